@@ -2,6 +2,7 @@ package props
 
 import (
 	"fmt"
+	"sync"
 	"testing"
 
 	"pgregory.net/rapid"
@@ -107,6 +108,18 @@ func c25Check(c *hist.Case, r *evid.Rec) []evid.Disc {
 			for _, s2 := range run.Steps[s.I:] {
 				if s2.A.Kind == "ack" && s2.A.Client == 0 && !s2.Skipped {
 					routes = append(routes, c25Route{"held-back", "inflight", s.Tag, s.I, s2.I, 0})
+					break
+				}
+			}
+		case len(ti.Topic) > 2 && ti.Topic[:2] == "h/":
+			// a retained message replayed to a subscriber whose Receive Maximum window is full: held back until an ack
+			sub := -1
+			for _, s2 := range run.Steps[s.I:] {
+				if s2.A.Kind == "subscribe" && s2.A.Client == 0 && !s2.Skipped && len(s2.A.Filters) > 0 && s2.A.Filters[0].Filter == "h/#" {
+					sub = s2.I
+				}
+				if sub >= 0 && s2.I > sub && s2.A.Kind == "ack" && s2.A.Client == 0 && !s2.Skipped {
+					routes = append(routes, c25Route{"retained-held-back", "inflight", s.Tag, s.I, s2.I, 0})
 					break
 				}
 			}
@@ -272,12 +285,63 @@ func c25Gen(rt *rapid.T) *hist.Case {
 	return c
 }
 
+// c25Aged: three fixed histories in which REAL time passes (4 s) between the publication of a retained message and its
+// replay to a subscriber whose window is full, so that "publish time" and "time it was held back" differ; they run
+// concurrently once per run (a generated case never sleeps).
+func c25Aged() []*hist.Case {
+	var out []*hist.Case
+	for _, v := range []struct {
+		x      int64
+		off    int64
+		retQoS byte
+	}{{5, 5, 1}, {5, 30, 1}, {60, 20, 2}} {
+		c := &hist.Case{}
+		c.Cfg.ClientPIDBase = 1000
+		x := v.x
+		c.Cfg.MaxMessageExpiry = &x
+		one := uint16(1)
+		exp := uint32(1000)
+		c.Actions = []hist.Action{
+			{Kind: "connect", Client: 1, Version: 5, Clean: true, AutoAck: true},
+			{Kind: "publish", Client: 1, Topic: "h/a", QoS: v.retQoS, Retain: true},
+			{Kind: "connect", Client: 0, Version: 5, Clean: false, Expiry: &exp, RecvMax: &one},
+			{Kind: "subscribe", Client: 0, Filters: []refmqtt.Filter{{Filter: "d/#", QoS: 1}}},
+			{Kind: "publish", Client: 1, Topic: "d/a", QoS: 1},
+			{Kind: "sleep", Offset: 4000},
+			{Kind: "subscribe", Client: 0, Filters: []refmqtt.Filter{{Filter: "h/#", QoS: 1}}},
+			{Kind: "tick", Tick: "inflight", Offset: v.off},
+			{Kind: "ack", Client: 0, Index: 0},
+			{Kind: "drain", Client: 0},
+		}
+		out = append(out, c)
+	}
+	return out
+}
+
 func TestC25(t *testing.T) {
-	r := evid.New("C25", "rapid: server maximum message expiry 0/5/60/default, publisher (v5 with Message Expiry Interval absent/3/30/300, or v3.1.1) and subscriber (v5 / v3.1.1), up to three routes per case in generated order, each with 0-3 housekeeping ticks at virtual times on both sides of every boundary (boundary-5, +5, near, far) between publication and the copy's opportunity to be sent: retained store -> later subscriber; held back by Receive Maximum 1 -> released by the client's acknowledgement; queued for an offline persistent session -> reconnect. Oracle: a tick of the route's housekeeping later than publish time + effective interval (smaller non-zero of publisher interval and server maximum; 3 s margin, inside not asserted) => the unsent copy is never delivered; no such tick => it is delivered at its opportunity (all three routes); every v5 delivery carries a Message Expiry Interval <= the effective interval, and carries one whenever the publisher set one. Non-trivial = a tick past expiry ran while an unsent copy existed; distinct by (history, route)")
+	r := evid.New("C25", "rapid: server maximum message expiry 0/5/60/default, publisher (v5 with Message Expiry Interval absent/3/30/300, or v3.1.1) and subscriber (v5 / v3.1.1), up to three routes per case in generated order, each with 0-3 housekeeping ticks at virtual times on both sides of every boundary (boundary-5, +5, near, far) between publication and the copy's opportunity to be sent: retained store -> later subscriber; held back by Receive Maximum 1 -> released by the client's acknowledgement; queued for an offline persistent session -> reconnect; plus three fixed 'aged' histories per run in which 4 s of real time pass between a retained publish and its (held-back) replay. Oracle: a tick of the route's housekeeping later than publish time + effective interval (smaller non-zero of publisher interval and server maximum; 3 s margin, inside not asserted) => the unsent copy is never delivered; no such tick => it is delivered at its opportunity (all three routes); every v5 delivery carries a Message Expiry Interval <= the effective interval, and carries one whenever the publisher set one. Non-trivial = a tick past expiry ran while an unsent copy existed; distinct by (history, route)")
 	defer r.Finish(t)
 	if evid.ReplayMode() {
 		evid.Replay(t, r, replayPath(), c25Check)
 		return
+	}
+	{
+		aged := c25Aged()
+		res := make([][]evid.Disc, len(aged))
+		var wg sync.WaitGroup
+		for i := range aged {
+			wg.Add(1)
+			go func(i int) { defer wg.Done(); res[i] = c25Check(aged[i], r) }(i)
+		}
+		wg.Wait()
+		for i, ds := range res {
+			r.Eval()
+			r.Label("aged-retained-message-case")
+			if un := r.Explain(ds); len(un) > 0 {
+				r.Fail(aged[i], un)
+				t.Errorf("C25 (aged case %d): [%s] %s", i, un[0].Sig, un[0].Msg)
+			}
+		}
 	}
 	evid.Run(t, r, func(rt *rapid.T) *hist.Case {
 		c := c25Gen(rt)
